@@ -109,6 +109,10 @@ def check(case: Dict[str, Any]) -> Outcome:
     from chuk_mcp.transports.http.http_client import http_client
     from chuk_mcp.transports.http.parameters import StreamableHTTPParameters
 
+    if "fuzz" in case:
+        from ..fuzz.job import check_fuzz_case
+
+        return check_fuzz_case(case)
     out = Outcome()
     steps: List[Dict[str, Any]] = list(case["steps"])
     probe = {"msg": {"kind": "request", "id": "probe-id"}, "beh": {"status": 200, "ctype": "json", "body": {"kind": "result"}}}
@@ -419,13 +423,22 @@ def job_hyp(col: Collector, seed: int, tier: str, shard: int, n: int) -> None:
     hyp_run(col, seed * 1000 + shard, cases(), check, n)
 
 
-JOBS = {"matrix": job_matrix, "hyp": job_hyp}
+def job_atheris(col: Collector, seed: int, tier: str, seconds: int, corpus: str) -> None:
+    from ..fuzz.job import run_fuzz_job
+
+    run_fuzz_job(col, "sse_text", seconds, seed, corpus)
+
+
+JOBS = {"atheris": job_atheris, "matrix": job_matrix, "hyp": job_hyp}
 
 
 def jobs(tier: str):
     if tier == "quick":
         return [("matrix", {"shard": s, "nshards": 10}) for s in range(10)] + [("hyp", {"shard": s, "n": 130}) for s in range(6)]
-    return [("matrix", {"shard": s, "nshards": 8}) for s in range(8)] + [("hyp", {"shard": s, "n": 2500}) for s in range(8)]
+    return (
+        [("matrix", {"shard": s, "nshards": 8}) for s in range(8)] + [("hyp", {"shard": s, "n": 2500}) for s in range(8)]
+        + [("atheris", {"seconds": 150, "corpus": "seeded"}), ("atheris", {"seconds": 150, "corpus": "empty"})]
+    )
 
 
 def shrink(signature: str, seed: int):
